@@ -128,6 +128,22 @@ fn makers() -> Vec<Form> {
                 )],
             ),
         }),
+        // let* with a repeated name: two bindings, a closure made between them sees the first one
+        Form::Define(Def {
+            name: "mk-star".into(),
+            sugar: true,
+            value: lam(
+                &["start"],
+                vec![Expr::LetStar(
+                    vec![
+                        ("n".into(), var("start")),
+                        ("get-first".into(), lam(&[], vec![var("n")])),
+                        ("n".into(), app("+", vec![var("n"), Expr::Int(100)])),
+                    ],
+                    body1(app("list", vec![lam(&[], vec![inc("n", Expr::Int(1)), var("n")]), var("get-first")])),
+                )],
+            ),
+        }),
         // assignment to a parameter must not leak
         dp("bump-param", &["x"], vec![inc("x", Expr::Int(1)), var("x")]),
         // write through a vector received as argument
@@ -146,8 +162,23 @@ pub fn gen_history(ch: &mut Chooser, max_steps: usize) -> History {
     let vecs = ["v1", "v2", "v3", "v4"];
     let mut tick = 0;
     for _ in 0..steps {
-        let op = ch.weighted(&[4, 6, 3, 3, 4, 5, 6, 4, 3, 3, 2, 2, 4, 2]);
+        let op = ch.weighted(&[4, 6, 3, 3, 4, 5, 6, 4, 3, 3, 2, 2, 4, 2, 1]);
         match op {
+            14 => {
+                // a vector stored into one of its own slots: the slot is one more name for the same vector. Only
+                // acyclic values are read back (the vector itself is never returned or printed).
+                let c = format!("cyc{}", h.forms.len());
+                let k = ch.below(3) as i32;
+                let j = (k + 1) % 3;
+                h.forms.push(d(&c, app("vector", vec![Expr::Int(1), Expr::Int(2), Expr::Int(3)])));
+                h.forms.push(Form::Expr(app("vector-set!", vec![var(&c), Expr::Int(k), var(&c)])));
+                h.forms.push(Form::Expr(app("eqv?", vec![app("vector-ref", vec![var(&c), Expr::Int(k)]), var(&c)])));
+                h.forms.push(Form::Expr(app("vector-set!", vec![app("vector-ref", vec![var(&c), Expr::Int(k)]), Expr::Int(j), sym("via-slot")])));
+                h.forms.push(Form::Expr(app("vector-ref", vec![var(&c), Expr::Int(j)])));
+                h.forms.push(Form::Expr(app("vector-set!", vec![var(&c), Expr::Int(j), sym("via-name")])));
+                h.forms.push(Form::Expr(app("vector-ref", vec![app("vector-ref", vec![app("vector-ref", vec![var(&c), Expr::Int(k)]), Expr::Int(k)]), Expr::Int(j)])));
+                h.label("vector-stored-into-itself");
+            }
             0 => {
                 // instantiate a counter-like closure
                 let n = *ch.pick(&counters);
@@ -178,7 +209,8 @@ pub fn gen_history(ch: &mut Chooser, max_steps: usize) -> History {
                         h.names.push((n.into(), Kind::Accum));
                     }
                     2 => {
-                        h.forms.push(d(n, app("mk-pair", vec![Expr::Int(ch.range(0, 9) as i32)])));
+                        let maker = if ch.chance(1, 3) { "mk-star" } else { "mk-pair" };
+                        h.forms.push(d(n, app(maker, vec![Expr::Int(ch.range(0, 9) as i32)])));
                         h.names.push((n.into(), Kind::PairOfClosures));
                     }
                     _ => {
